@@ -735,6 +735,7 @@ static Family addrs_family(const std::string &tier)
   gai("localhost", AF_UNSPEC, ARES_AI_NUMERICSERV, "8080");
   gai("localhost", AF_UNSPEC, 0, "");
   gai("x.localhost", AF_INET, 0, "");
+  gai("10.1.2.3", AF_INET6, 0, "");                           // an IPv4 literal for an IPv6-only lookup: nothing of the other family may come back
   gai("hosted.example.com", AF_UNSPEC, ARES_AI_ENVHOSTS, "");
   gai("onlyenv.example.com", AF_INET, ARES_AI_ENVHOSTS, "");
   gai("onlyconf.example.com", AF_INET, ARES_AI_ENVHOSTS, "");
@@ -907,13 +908,24 @@ const Family *find_family(const std::string &name, const std::string &tier)
       c.reuse_fds = true;
       f.cfgs.push_back(c);
     }
+    {
+      // deferred writes: ares_process_pending_write() walks the server list while a failing flush completes queries
+      Cfg c              = cfg("2srv-1try-usevc-tfo-pendingwrite", 2, 1, ARES_FLAG_USEVC);
+      c.tfo              = true;
+      c.pending_write_cb = true;
+      f.cfgs.push_back(c);
+      Cfg d              = cfg("1srv-1try-usevc-tfo-pendingwrite", 1, 1, ARES_FLAG_USEVC);
+      d.tfo              = true;
+      d.pending_write_cb = true;
+      f.cfgs.push_back(d);
+    }
     f.req_menu   = { 19, 20, 21, 22, 0, 4 };
     f.replies    = { RK_DATA, RK_SERVFAIL, RK_FORMERR_NOOPT, RK_TC };
     f.faults     = { FS_SEND_REFUSED, FS_RECV_RESET };
     f.fault_skips = { 0 };
     f.fault_skip_sites.clear();
     f.setservers = {};
-    f.evmask     = EVBIT(EV_REQ) | EVBIT(EV_REPLY) | EVBIT(EV_IO) | EVBIT(EV_TIMER) | EVBIT(EV_CANCEL) | EVBIT(EV_FAULT) | EVBIT(EV_TCP);
+    f.evmask     = EVBIT(EV_REQ) | EVBIT(EV_REPLY) | EVBIT(EV_IO) | EVBIT(EV_TIMER) | EVBIT(EV_CANCEL) | EVBIT(EV_FAULT) | EVBIT(EV_TCP) | EVBIT(EV_WRITECB);
     f.max_req    = tier == "quick" ? 2 : 3;
     f.max_depth  = tier == "quick" ? 4 : 5;
     f.max_dev    = 1;
